@@ -44,6 +44,8 @@ enum Ty {
     Rec(String),    // a named-field struct used as a value (translated to a Coq Record)
     Enum(String),   // a unit-like enum of the file
     Res(Box<Ty>),   // Result<T, _>
+    Range,          // Range<usize> as a value: (start, end)
+    Tup(Vec<Ty>),   // tuple type
     Text,   // &T where T: TextSource
     Source, // &D where D: BidiDataSource
     Other,
@@ -80,6 +82,7 @@ fn ty_of_type(t: &Type, g: &syn::Generics) -> Ty {
         Type::Reference(r) => ty_of_type(&r.elem, g),
         Type::Paren(p) => ty_of_type(&p.elem, g),
         Type::Tuple(t) if t.elems.is_empty() => Ty::Unit,
+        Type::Tuple(t) => Ty::Tup(t.elems.iter().map(|x| ty_of_type(x, g)).collect()),
         Type::Slice(s) => Ty::Slice(Box::new(ty_of_type(&s.elem, g))),
         Type::Path(p) => {
             let seg = p.path.segments.last().unwrap();
@@ -92,6 +95,7 @@ fn ty_of_type(t: &Type, g: &syn::Generics) -> Ty {
                 "bool" => Ty::Bool,
                 "Level" | "Self" => Ty::Level,
                 "BidiClass" => Ty::Class,
+                "Range" => Ty::Range,
                 "Result" => {
                     if let syn::PathArguments::AngleBracketed(a) = &seg.arguments {
                         if let Some(syn::GenericArgument::Type(t)) = a.args.first() {
@@ -108,7 +112,15 @@ fn ty_of_type(t: &Type, g: &syn::Generics) -> Ty {
                     }
                     Ty::Other
                 }
-                "LevelRunVec" | "Vec" | "SmallVec" => Ty::Slice(Box::new(Ty::Other)),
+                "Vec" => {
+                    if let syn::PathArguments::AngleBracketed(a) = &seg.arguments {
+                        if let Some(syn::GenericArgument::Type(t)) = a.args.first() {
+                            return Ty::Slice(Box::new(ty_of_type(t, g)));
+                        }
+                    }
+                    Ty::Slice(Box::new(Ty::Other))
+                }
+                "LevelRunVec" | "SmallVec" => Ty::Slice(Box::new(Ty::Other)),
                 _ => generic_kind(g, &n).unwrap_or(Ty::Other),
             }
         }
@@ -233,8 +245,11 @@ impl<'a> Tr<'a> {
                 if n == "None" {
                     return Ty::Opt(Box::new(Ty::Unknown));
                 }
-                if n == "REPLACEMENT_CHARACTER" {
+                if n == "REPLACEMENT_CHARACTER" || (p.path.segments.len() == 2 && p.path.segments[0].ident == "chars") {
                     return Ty::Char;
+                }
+                if n == "LTR_LEVEL" || n == "RTL_LEVEL" {
+                    return Ty::Level;
                 }
                 for (en, vars) in &self.file.enums {
                     if vars.contains(&n) && p.path.segments.len() >= 2 && p.path.segments[p.path.segments.len() - 2].ident == en.as_str() {
@@ -338,6 +353,9 @@ impl<'a> Tr<'a> {
                     }
                     if n == "from_u32" {
                         return Ty::Opt(Box::new(Ty::Char));
+                    }
+                    if (n == "new" || n == "with_capacity") && p.path.segments.len() == 2 && p.path.segments[0].ident == "Vec" {
+                        return Ty::Slice(Box::new(Ty::Unknown));
                     }
                     if (n == "max" || n == "min") && c.args.len() == 2 {
                         return self.num_ty(&c.args[0], &c.args[1]);
@@ -571,6 +589,17 @@ impl<'a> Tr<'a> {
         if n == "REPLACEMENT_CHARACTER" {
             return Ok("65533%N".into());
         }
+        if p.segments.len() == 2 && p.segments[0].ident == "chars" {
+            // crate::format_chars constants (ConstsGen.v)
+            return Ok(format!("fc_{}", n));
+        }
+        if self.file.stem != "level" {
+            match n.as_str() {
+                "LTR_LEVEL" => return Ok("0%nat".into()),
+                "RTL_LEVEL" => return Ok("1%nat".into()),
+                _ => {}
+            }
+        }
         match n.as_str() {
             "None" => return Ok("None".into()),
             "Equal" => return Ok("Eq".into()),
@@ -747,6 +776,13 @@ impl<'a> Tr<'a> {
             let x = self.expr_h(&c.args[0], &t, b)?;
             let y = self.expr_h(&c.args[1], &t, b)?;
             return Ok(format!("(Nat.{} {} {})", n, x, y));
+        }
+        if segs.len() == 2 && (segs[0] == "Vec" || segs[0] == "SmallVec") && (n == "new" || n == "with_capacity") {
+            // the argument of with_capacity is evaluated (it may have effects), the capacity itself is not observable
+            for a in &c.args {
+                let _ = self.expr(a, b)?;
+            }
+            return Ok("[]".into());
         }
         if segs.len() == 2 && segs[0] == "char" && n == "from_u32" && c.args.len() == 1 {
             let a = self.expr(&c.args[0], b)?;
@@ -1345,6 +1381,8 @@ impl<'a> Tr<'a> {
             Stmt::Local(l) => &l.attrs,
             Stmt::Macro(m) => &m.attrs,
             Stmt::Expr(Expr::Block(b), _) => &b.attrs,
+            Stmt::Expr(Expr::Call(c), _) => &c.attrs,
+            Stmt::Expr(Expr::MethodCall(c), _) => &c.attrs,
             _ => &[],
         };
         match cfg_keeps(attrs) {
@@ -1552,6 +1590,22 @@ impl<'a> Tr<'a> {
             Expr::ForLoop(fl) => self.flow_for(fl, rest, fin),
             Expr::Macro(m) => self.flow_macro(&m.mac, rest, fin),
             Expr::Tuple(t) if t.elems.is_empty() => self.flow(rest, fin),
+            Expr::MethodCall(m) if m.method == "extend" && m.args.len() == 1 && local_name(&m.receiver).map(|v| self.is_mut_local(&v)).unwrap_or(false) => {
+                // v.extend(repeat(x).take(n))
+                let v = coq_ident(&local_name(&m.receiver).unwrap());
+                let (x, n) = match strip(&m.args[0]) {
+                    Expr::MethodCall(t) if t.method == "take" && t.args.len() == 1 => match strip(&t.receiver) {
+                        Expr::Call(r) if matches!(strip(&r.func), Expr::Path(p) if last_ident(&p.path) == "repeat") && r.args.len() == 1 => (r.args[0].clone(), t.args[0].clone()),
+                        _ => return Err("extend with something other than repeat(x).take(n)".into()),
+                    },
+                    _ => return Err("extend with something other than repeat(x).take(n)".into()),
+                };
+                let mut b = vec![];
+                let xv = self.expr(&x, &mut b)?;
+                let nv = self.expr_h(&n, &Ty::Word, &mut b)?;
+                let k = self.flow(rest, fin)?;
+                Ok(wrap(&b, &format!("let {} := {} ++ repeat {} {} in {}", v, v, xv, nv, k)))
+            }
             Expr::MethodCall(m) if matches!(m.method.to_string().as_str(), "push" | "pop" | "clear") && local_name(&m.receiver).map(|v| self.is_mut_local(&v)).unwrap_or(false) => {
                 let v = coq_ident(&local_name(&m.receiver).unwrap());
                 let mut b = vec![];
@@ -1603,6 +1657,18 @@ impl<'a> Tr<'a> {
                 Ok(wrap(&b, &k))
             }
             _ => Err(format!("unsupported statement: {}", kind(e))),
+        }
+    }
+
+    /// the types of the `ref mut` binders of [p] (in binding order), given the type of the matched value
+    fn ref_mut_types(&self, p: &Pat, t: &Ty) -> Vec<Ty> {
+        match (p, t) {
+            (Pat::TupleStruct(ts), Ty::Opt(inner)) if ts.elems.len() == 1 => self.ref_mut_types(&ts.elems[0], inner),
+            (Pat::Tuple(tp), Ty::Tup(tys)) => tp.elems.iter().zip(tys.iter()).flat_map(|(a, b)| self.ref_mut_types(a, b)).collect(),
+            (Pat::Ident(_), t) => vec![t.clone()],
+            (Pat::Reference(r), t) => self.ref_mut_types(&r.pat, t),
+            (Pat::Paren(r), t) => self.ref_mut_types(&r.pat, t),
+            _ => vec![],
         }
     }
 
@@ -1665,6 +1731,41 @@ impl<'a> Tr<'a> {
             let s = self.expr(&l.expr, &mut b)?;
             let pty = self.payload_ty(&l.expr);
             let (p, vars) = self.pattern(&l.pat)?;
+            // binders alias the local's parts when they are `ref mut`, or when the local itself holds `&mut` references
+            // (a by-value parameter such as Option<(&mut Vec<_>, &mut Vec<_>)>) and is destructured by value
+            let aliased = pat_has_ref_mut(&l.pat)
+                || local_name(&l.expr).map(|t| self.f.params.iter().any(|p| p.0 == t && p.2 && matches!(p.1, Ty::Opt(_)))).unwrap_or(false);
+            if aliased {
+                // `if let Some((ref mut a, ref mut b)) = x { ..mutate a, b.. }`: a and b alias the parts of the local x; the
+                // then-branch runs with a, b as mutable variables and x is rebuilt from them when it completes
+                let target = local_name(&l.expr).ok_or("`ref mut` pattern on something other than a local")?;
+                if !self.is_mut_local(&target) || i.else_branch.is_some() {
+                    return Err("`ref mut` pattern: unsupported shape".into());
+                }
+                let tys = self.ref_mut_types(&l.pat, &self.lookup_local(&target).unwrap_or(Ty::Unknown));
+                let n0 = self.locals.len();
+                for (k, v) in vars.iter().enumerate() {
+                    self.locals.push((v.clone(), tys.get(k).cloned().unwrap_or(Ty::Unknown), true));
+                }
+                let mut inner_w: Vec<String> = w.iter().filter(|x| **x != target).cloned().collect();
+                for v in &vars {
+                    if !inner_w.contains(v) {
+                        inner_w.push(v.clone());
+                    }
+                }
+                let t = self.flow_block(&i.then_branch, &inner_w);
+                self.locals.truncate(n0);
+                let t = t?;
+                let rebuilt = p.clone(); // the pattern text is also the constructor expression
+                let inner_pat = if inner_w.is_empty() { "_".to_string() } else { format!("({})", inner_w.iter().map(|v| coq_ident(v)).collect::<Vec<_>>().join(", ")) };
+                let outer = self.tuple(w);
+                let el = format!("Ok (Go {})", outer);
+                let cont = format!(
+                    "f <- {} ;; match f with Go {} => let {} := {} in Ok (Go {}) | Brk b => Ok (Brk b) | Cnt b => Ok (Cnt b) | Ret r => Ok (Ret r) end",
+                    paren(&t), inner_pat, coq_ident(&target), rebuilt, outer
+                );
+                return Ok(wrap(&b, &format!("match {} with {} => {} | _ => {} end", s, p, cont, el)));
+            }
             let n0 = self.locals.len();
             for v in vars {
                 self.locals.push((v, if pty == Ty::Unknown { Ty::Word } else { pty.clone() }, false));
@@ -1899,6 +2000,8 @@ fn ty_coq(t: &Ty) -> String {
         Ty::Text => "list N".into(),
         Ty::Source => "rs_data_source".into(),
         Ty::Rec(n) | Ty::Enum(n) => n.clone(),
+        Ty::Range => "(nat * nat)".into(),
+        Ty::Tup(ts) => format!("({})", ts.iter().map(|t| ty_coq(t)).collect::<Vec<_>>().join(" * ")),
         _ => "_".into(),
     }
 }
@@ -1939,7 +2042,7 @@ impl<'ast> Visit<'ast> for Writes {
         syn::visit::visit_expr_binary(self, b);
     }
     fn visit_expr_method_call(&mut self, m: &'ast syn::ExprMethodCall) {
-        if matches!(m.method.to_string().as_str(), "push" | "pop" | "clear" | "truncate") {
+        if matches!(m.method.to_string().as_str(), "push" | "pop" | "clear" | "truncate" | "extend") {
             if let Some(v) = local_name(&m.receiver) {
                 self.set.insert(v);
             }
@@ -1959,6 +2062,14 @@ impl<'ast> Visit<'ast> for Writes {
             }
         }
         syn::visit::visit_expr_method_call(self, m);
+    }
+    fn visit_expr_let(&mut self, l: &'ast syn::ExprLet) {
+        if pat_has_ref_mut(&l.pat) || matches!(strip(&l.expr), Expr::Path(p) if last_ident(&p.path) == "split_paragraphs") {
+            if let Some(v) = local_name(&l.expr) {
+                self.set.insert(v);
+            }
+        }
+        syn::visit::visit_expr_let(self, l);
     }
     fn visit_macro(&mut self, m: &'ast syn::Macro) {
         // `matches!(v.pop(), ..)` mutates v
@@ -2048,6 +2159,17 @@ impl syn::parse::Parse for AssertArgs {
             }
         }
         Ok(AssertArgs { a, b })
+    }
+}
+
+fn pat_has_ref_mut(p: &Pat) -> bool {
+    match p {
+        Pat::Ident(i) => i.by_ref.is_some() && i.mutability.is_some(),
+        Pat::TupleStruct(ts) => ts.elems.iter().any(pat_has_ref_mut),
+        Pat::Tuple(t) => t.elems.iter().any(pat_has_ref_mut),
+        Pat::Reference(r) => pat_has_ref_mut(&r.pat),
+        Pat::Paren(r) => pat_has_ref_mut(&r.pat),
+        _ => false,
     }
 }
 
@@ -2237,7 +2359,21 @@ fn fn_info(stem: &str, label: Option<&str>, self_ty: Ty, name: &str, sig: &syn::
                     Pat::Ident(i) => i.ident.to_string(),
                     _ => "_".to_string(),
                 };
-                let is_mut_ref = matches!(&*t.ty, Type::Reference(r) if r.mutability.is_some());
+                let holds_mut_refs = {
+                    struct F(bool);
+                    impl<'ast> Visit<'ast> for F {
+                        fn visit_type_reference(&mut self, r: &'ast syn::TypeReference) {
+                            if r.mutability.is_some() {
+                                self.0 = true;
+                            }
+                            syn::visit::visit_type_reference(self, r);
+                        }
+                    }
+                    let mut f = F(false);
+                    f.visit_type(&t.ty);
+                    f.0
+                };
+                let is_mut_ref = matches!(&*t.ty, Type::Reference(r) if r.mutability.is_some()) || holds_mut_refs;
                 params.push((n, ty_of_type(&t.ty, &sig.generics), is_mut_ref));
             }
         }
@@ -2296,6 +2432,7 @@ pub const FUNCS: &[(&str, &str, &str)] = &[
     ("utf16", "Iterator_for_Utf16CharIter", "next"),
     ("utf16", "DoubleEndedIterator_for_Utf16CharIter", "next_back"),
     ("explicit", "", "compute"),
+    ("lib", "", "compute_initial_info"),
 ];
 
 pub fn translate_all(repo: &Path, report: &mut Report) -> String {
@@ -2340,7 +2477,7 @@ pub fn translate_all(repo: &Path, report: &mut Report) -> String {
             }
             // value structs (all fields of translatable type) become Records; iterator structs hold a slice and are not values
             for (sn, fields) in &ctx.structs {
-                if fields.iter().all(|(_, t)| matches!(t, Ty::Level | Ty::U8 | Ty::Word | Ty::Bool | Ty::Class | Ty::Char | Ty::Enum(_) | Ty::Rec(_))) {
+                if fields.iter().all(|(_, t)| matches!(t, Ty::Level | Ty::U8 | Ty::Word | Ty::Bool | Ty::Class | Ty::Char | Ty::Enum(_) | Ty::Rec(_) | Ty::Range)) {
                     out.push_str(&format!(
                         "Record {} : Set := {{ {} }}.\n",
                         sn,
